@@ -1,5 +1,5 @@
 CONSTANTS
-  MaxFiles = 3
+  MaxFiles = 2
   Depth2 = TRUE
   Emit = TRUE
 INIT Init
